@@ -109,7 +109,7 @@ static void op_thr(int argc, char** a)
 	if (init_from_cfg(cfg) != SZ_SCES) { printf(" st=init-failed\n"); szv_yield_fn = NULL; return; }
 	int toks[4096]; nsched = 0;
 	scheduling = strcmp(a[1], "free") != 0;
-	if (scheduling && strcmp(a[1], "_")) { char* sc = strdup(a[1]); char* sv; for (char* t = strtok_r(sc, ",", &sv); t && nsched < 4096; t = strtok_r(NULL, ",", &sv)) toks[nsched++] = atoi(t); free(sc); }
+	if (scheduling && strcmp(a[1], "_")) { char* sc = strdup(a[1]); char* sv; for (char* t = strtok_r(sc, ",", &sv); t && nsched < 4096; t = strtok_r(NULL, ",", &sv)) toks[nsched++] = (int)strtol(t, NULL, 16); free(sc); }
 	sched = toks; spos = 0; memset(done, 0, sizeof done);
 	for (int i = 0; i < n; i++) { tlen[i] = 0; trace[i][0] = 0; }
 	pthread_mutex_lock(&mu); if (scheduling) pick_next(); pthread_mutex_unlock(&mu);
